@@ -57,6 +57,63 @@ def _door_vs_spec(door):
     """a door's accept/reject decision (and the accepted text) against the declarative grammar verdict"""
     return lambda line, fi, fm, d=door: (_acc(fi.get(d)), _acc(fm.get("spec_d")))
 
+# ---- tolerant views: where the property's statement itself allows more than one answer, implementation and model
+# are compared only up to that freedom (which answer is given, and that it is truthful, is decided by the
+# implementation-side law of the same row: law_truth / law_locate). See DESIGN.md §15.
+
+def _arg_text(line, k):
+    """k-th argument of an operation line decoded from xHEX to text (None if not hex)"""
+    parts = line.split(" ")
+    if k >= len(parts) or not parts[k].startswith("x"): return None
+    try: return bytes.fromhex(parts[k][1:]).decode("utf-8", "replace")
+    except ValueError: return None
+
+def _index_reasons(tok):
+    """the set of rejection reasons C16 allows for a string that is not an index: leading-zeros only for a
+    multi-character string starting with '0'; invalid-character iff there is a non-digit; invalid-integer only for
+    empty or overflowing digit strings"""
+    rs = set()
+    digits = all(c in "0123456789" for c in tok)
+    if len(tok) > 1 and tok[0] == "0": rs.add("lz")
+    if not digits: rs.add("ic")
+    if tok == "" or (digits and int(tok) > 2 ** 64 - 1): rs.add("ii")
+    return rs
+
+def _idx_err_view(tok, v):
+    """err(lz) | err(ic,OFF) | err(ii,KIND)  ->  err(one-of:…) when C16 allows several reasons for this string"""
+    if v is None or tok is None or not v.startswith("err("): return v
+    rs = _index_reasons(tok)
+    return "err(one-of:" + "|".join(sorted(rs)) + ")" if len(rs) > 1 else v
+
+def _idx_r(other):
+    return lambda line, fi, fm, o=other: (_idx_err_view(_arg_text(line, 1), fi.get("r")), _idx_err_view(_arg_text(line, 1), fm.get(o)))
+
+def _pl_view(tok, v):
+    """C15 payload of an index-parse error: lz | ic(OFF) | ii(KIND) -> one-of when several reasons are truthful"""
+    if v is None or tok is None or not re.match(r"^(lz|ic\(|ii\()", v): return v
+    rs = _index_reasons(tok)
+    return "one-of:" + "|".join(sorted(rs)) if len(rs) > 1 else v
+
+def _fe_err_view(v, firstbad):
+    """Token::from_encoded error: C03 lets the reported offset be that of the offence or of the byte after it (and
+    for `~/` either offence may be named): err(KIND,OFF) -> err(@first-offence) when OFF is one of the two"""
+    m = re.match(r"^err\((slash|tilde),(\d+)\)$", v or "")
+    if not m or firstbad in (None, "none"): return v
+    f, k = int(firstbad), int(m.group(2))
+    return "err(@first-offence)" if k in (f, f + 1) else v
+
+def _fe_r(line, fi, fm):
+    fb = fm.get("spec_firstbad")
+    return (_fe_err_view(fi.get("r"), fb), _fe_err_view(fm.get("r"), fb))
+
+def _label14(line, fi, fm):
+    """C14 label: for an encoding error it begins at the offending '~' (offset compared; the length only has to stay
+    inside the input: law_truth); for NoLeadingSlash it only has to lie inside the input (law_truth)"""
+    a, b = fi.get("label"), fm.get("label")
+    if fi.get("d1") == "err(nls)" and fm.get("d1") == "err(nls)": return None
+    off = lambda v: re.sub(r"^\((\d+),\d+\)$", r"(\1,_)", v) if v else v
+    return (off(a), off(b))
+
 def _decision(field):
     return (field + ":decision", lambda line, fi, fm, f=field: (_dec(fi.get(f)), _dec(fm.get(f))))
 
@@ -70,7 +127,21 @@ def _locate(field):
     (whether an error occurs at all is C05/C06's business)"""
     def fn(line, fi, fm, f=field):
         if not (fi.get("r", "").startswith("err") and fm.get("r", "").startswith("err")): return None
-        return (fi.get(f), fm.get(f))
+        a, b = fi.get(f), fm.get(f)
+        if f == "pl":
+            # the failing token's own text (encoded; `~` is a non-digit either way)
+            gp = fi.get("gp")
+            tok = None
+            if gp and gp.startswith("x"):
+                try: tok = bytes.fromhex(gp[1:]).decode("utf-8", "replace")
+                except ValueError: tok = None
+            a, b = _pl_view(tok, a), _pl_view(tok, b)
+        if f == "label":
+            # an empty token gets "an empty span at that place": either side of the separator (law_locate pins it)
+            em = lambda v, off: "(@token,0)" if v and off and re.match(r"^\((\d+),0\)$", v) and int(v[1:-3]) in (int(off), int(off) + 1) else v
+            try: a, b = em(a, fi.get("off")), em(b, fm.get("off"))
+            except ValueError: pass
+        return (a, b)
     return (field, fn)
 
 ACC = ["text", "toks", "encs", "count", "first", "last", "gets", "comps", "is_root", "len"]
@@ -126,7 +197,7 @@ PROPS = {
   ops={
    "tok_new": dict(fields=["enc", "dec"], spec=[("enc", "spec_enc", ident), ("dec", "spec_dec", ident)],
                    laws=["law_enc", "law_dec", "law_valid", "law_from"]),
-   "from_encoded": dict(fields=["r"], spec=[("r", "spec_valid", _ok_flag), ("r", "spec_dec", _fe_dec)],
+   "from_encoded": dict(fields=[("r", _fe_r)], spec=[("r", "spec_valid", _ok_flag), ("r", "spec_dec", _fe_dec)],
                         laws=["law_exact", "law_verbatim", "law_inverse", "law_truth"]),
   },
   rule="all strings over {/,~,0,1,a,é} up to length 6/7 for both ops + seeded random (tilde-dense, 1k–8k long); non-trivial: contains '~', '/' or a multi-byte char",
@@ -232,7 +303,7 @@ PROPS = {
   theorems="Jp.C13.startsWith_iff, stripPrefix_iff, stripPrefix_concat, endsWith_iff, stripSuffix_iff, intersection_lcp, intersection_comm, concat_assoc, …",
  ),
  "C14": dict(
-  ops={"parse": dict(fields=["d1", "d2", "co", "src", "label", "rsubj"], spec=[("d1", "spec_d", ident)],
+  ops={"parse": dict(fields=["d1", "d2", "co", "src", ("label", _label14), "rsubj"], spec=[("d1", "spec_d", ident)],
                      laws=["law_truth", "law_report", "law_fmt"])},
   rule="all strings over {/,~,0,1,a,é} up to length 6/7 + seeded random rejected strings (bad '~' in first/middle/last token, at the end, before '/', before multi-byte, after valid escapes); non-trivial: contains '~', '/' or multi-byte",
   exhaustive="every string over {/,~,0,1,a,é} up to length 6 (quick) / 7 (thorough)",
@@ -252,7 +323,7 @@ PROPS = {
  "C16": dict(
   release_too=True,
   ops={
-   "index_str": dict(fields=["r", "disp"], spec=[("r", "spec_r", ident)], laws=["law_grammar", "law_display", "law_forms", "law_truth"]),
+   "index_str": dict(fields=[("r", _idx_r("r")), "disp"], spec=[_idx_r("spec_r")], laws=["law_grammar", "law_display", "law_forms", "law_truth"]),
    "index_len": dict(fields=["fl", "fli", "flu"], laws=["law_bounds"]),
   },
   rule="all strings over {0,1,9,-,+,a,٣} up to length 5 + grammar-directed random index strings (around 2^64) + the (index,len) boundary grid; non-trivial: not a plain 1–3 digit number",
